@@ -162,9 +162,9 @@ registry! {
     c18_bucket_order_3, "C18", quick, 12, hasher, 600 => c18::bucket_order(3); // 3 arbitrary key digests, all 6 orders
     c18_state_order_d0, "C18", quick, 12, hasher, 900 => c18::state_insertion_order(0); // keys a,b with symbolic LWW values, two insertion orders, 1 bucket
     c18_state_order_d1, "C18", thorough, 12, hasher, 1500 => c18::state_insertion_order(1); // same, 2 buckets
-    c18_sound_lww, "C18", quick, 12, hasher, 600 => c18::key_digest_sound(0); // two LWW values of one key with symbolic stamps/bytes/tombstones
-    c18_sound_expiry, "C18", quick, 12, hasher, 600 => c18::key_digest_sound(1); // same LWW value, symbolic expiries
-    c18_sound_hash, "C18", quick, 12, hasher, 900 => c18::key_digest_sound(2); // hash {f} with equal outer stamp, different field registers
+    c18_sound_lww, "C18", quick, 52, hasher, 600 => c18::key_digest_sound(0); // two LWW values of one key with symbolic stamps/bytes/tombstones
+    c18_sound_expiry, "C18", quick, 52, hasher, 600 => c18::key_digest_sound(1); // same LWW value, symbolic expiries
+    c18_sound_hash, "C18", quick, 52, hasher, 900 => c18::key_digest_sound(2); // hash {f} with equal outer stamp, different field registers
     c19_twin, "C19", quick, 8, plain, 300 => c19::twin();
     c19_from_config_3, "C19", quick, 8, plain, 600 => c19::from_config_ids(3); // 3-node cluster, replica_id symbolic in 1..=3
     c19_from_config_5, "C19", thorough, 8, plain, 1200 => c19::from_config_ids(5); // 5-node cluster, replica_id symbolic in 1..=5
